@@ -737,8 +737,8 @@ impl C08 {
                     match r.below(5) {
                         0 => format!("a: \"{}\"\n", "x".repeat(70_000)).into_bytes(),
                         1 => format!("{{\"{}\": 1}}", "k".repeat(70_000)).into_bytes(),
-                        2 => format!("a: [{}]\n", vec!["1"; 300].join(", ")).into_bytes(),
-                        3 => (0..250).map(|i| format!("k{}: {}\n", i, i)).collect::<String>().into_bytes(),
+                        2 => format!("a: [{}]\n", vec!["1"; 60].join(", ")).into_bytes(),
+                        3 => (0..60).map(|i| format!("k{}: {}\n", i, i)).collect::<String>().into_bytes(),
                         _ => format!("a: |\n{}", "  line\n".repeat(3_000)).into_bytes(),
                     }
                 } else {
